@@ -61,7 +61,7 @@ let string = import! std.string
 let char = import! std.char
 let { map } = import! std.functor
 let { show } = import! std.show
-let { compare } = import! std.cmp
+let { Ordering, compare } = import! std.cmp
 
 type R =
     | RInt Int
@@ -133,15 +133,35 @@ pub struct Vm {
     list_append: OwnedFunction<fn(Vec<i64>, Vec<i64>) -> Val>,
 }
 
+/// Framework self-test aid: `mapsrc=FILE` / `listsrc=FILE` make the driver use FILE (a variant of
+/// std/map.glu / std/list.glu, e.g. a seeded mutation) instead of the module built into the VM.
+/// Never set by checks/c19.py; /repo's own sources are what a normal run exercises.
+static ALT_SOURCES: std::sync::OnceLock<(Option<String>, Option<String>)> = std::sync::OnceLock::new();
+
 fn driver_source() -> String {
-    // the std sources are read by the VM's importer from GLUON_REPO-independent embedded copies;
-    // nothing to substitute here
-    DRIVER.to_string()
+    let mut d = DRIVER.to_string();
+    if let Some((m, l)) = ALT_SOURCES.get() {
+        if m.is_some() {
+            d = d.replace("let map = import! std.map", "let map = import! c19altmap");
+        }
+        if l.is_some() {
+            d = d.replace("let list @ { List, ? } = import! std.list", "let list @ { List, ? } = import! c19altlist");
+        }
+    }
+    d
 }
 
 impl Vm {
     fn new() -> Vm {
         let vm = new_vm();
+        if let Some((m, l)) = ALT_SOURCES.get() {
+            if let Some(p) = m {
+                vm.load_script("c19altmap", &std::fs::read_to_string(p).expect("mapsrc")).unwrap_or_else(|e| panic!("mapsrc does not compile: {}", e));
+            }
+            if let Some(p) = l {
+                vm.load_script("c19altlist", &std::fs::read_to_string(p).expect("listsrc")).unwrap_or_else(|e| panic!("listsrc does not compile: {}", e));
+            }
+        }
         vm.load_script("c19drv", &driver_source()).unwrap_or_else(|e| panic!("driver does not compile: {}", e));
         macro_rules! g {
             ($n:expr) => {
@@ -593,6 +613,7 @@ fn corpus_cases() -> Vec<Case> {
 
 fn main() {
     let args = Args::parse();
+    let _ = ALT_SOURCES.set((args.extra.get("mapsrc").cloned(), args.extra.get("listsrc").cloned()));
     let mut vm = Vm::new();
 
     if let Some(path) = &args.replay {
@@ -600,8 +621,18 @@ fn main() {
         let line = v["case"]["line"].as_str().expect("case.line").to_string();
         let c = Case::parse(&line).expect("case line");
         println!("case: {}", line);
-        println!("impl:   {}", run_impl(&mut vm, &c));
+        let r = run_impl(&mut vm, &c);
+        println!("impl:   {}", r);
         println!("oracle: {}", run_oracle(&c));
+        match property_failure(&c, &r) {
+            Some((key, what)) => println!("property: FAILS [{}] {}", key, what),
+            None => println!("property: no direct failure on this input"),
+        }
+        match &c {
+            Case::Derive(d) => println!("gluon source:\n{}", derive::source(d)),
+            Case::Json(j) => println!("gluon source:\n{}", json::source(j)),
+            _ => {}
+        }
         println!("expected: {}", v["expected"].as_str().unwrap_or("?"));
         return;
     }
@@ -636,7 +667,7 @@ fn main() {
     }
 
     let only: Option<String> = args.extra.get("family").cloned();
-    let scale: u64 = if args.thorough() { 20 } else { 1 };
+    let scale: u64 = if args.thorough() { 50 } else { 4 };
     let mut rng = Rng::new(args.seed);
     let mut hist = Hist::default();
     let mut cases: Vec<Case> = corpus_cases();
